@@ -122,6 +122,42 @@ def unit_globals(repo, gen):
                     elif isinstance(m, ast.Call) and isinstance(m.func, ast.Attribute) and m.func.attr in MUTATORS \
                             and isinstance(m.func.value, ast.Name) and m.func.value.id in names_here:
                         mutated.append((mod, fnode.name, m.func.value.id))
+    # the process environment is module-level state too: any write to it, and any alias of os.environ that is not a copy
+    environ = []
+    for root, dirs, files in os.walk(base):
+        dirs.sort()
+        for fn in sorted(files):
+            if not fn.endswith(".py"):
+                continue
+            full = os.path.join(root, fn)
+            rel = os.path.relpath(full, base)
+            if rel.startswith("tests") or "/tests/" in "/" + rel or fn.startswith("test_") or fn in ("testutil.py", "conftest.py"):
+                continue
+            mod = rel[:-3].replace(os.sep, ".")
+            with open(full, encoding="utf-8") as f:
+                tree = ast.parse(f.read(), rel)
+
+            def is_environ(e):
+                return isinstance(e, ast.Attribute) and e.attr == "environ" and isinstance(e.value, ast.Name) and e.value.id == "os"
+
+            for fnode in ast.walk(tree):
+                if not isinstance(fnode, (ast.FunctionDef, ast.AsyncFunctionDef)):
+                    continue
+                for m in ast.walk(fnode):
+                    if isinstance(m, (ast.Assign, ast.AnnAssign)) and m.value is not None and is_environ(m.value):
+                        environ.append((mod, fnode.name, "alias"))
+                    elif isinstance(m, ast.Subscript) and isinstance(m.ctx, (ast.Store, ast.Del)) and is_environ(m.value):
+                        environ.append((mod, fnode.name, "store"))
+                    elif isinstance(m, ast.Call) and isinstance(m.func, ast.Attribute):
+                        if is_environ(m.func.value) and m.func.attr in MUTATORS:
+                            environ.append((mod, fnode.name, m.func.attr))
+                        elif isinstance(m.func.value, ast.Name) and m.func.value.id == "os" and m.func.attr in ("putenv", "unsetenv", "chdir", "umask"):
+                            environ.append((mod, fnode.name, m.func.attr))
+                        elif any(is_environ(a) for a in m.args) or any(is_environ(k.value) for k in m.keywords):
+                            environ.append((mod, fnode.name, "passed:" + m.func.attr))
+                    elif isinstance(m, ast.Return) and m.value is not None and is_environ(m.value):
+                        environ.append((mod, fnode.name, "returned"))
+    environ = sorted(set(environ))
     mod_assign.sort()
     global_stmts = sorted(set(global_stmts))
     mutated = sorted(set(mutated))
@@ -141,10 +177,112 @@ def unit_globals(repo, gen):
            "(* (module, function, name, source): what a function assigns to a `global` name; config = config.get(..) or eval(config.get(..)) *)",
            "Definition global_sources : list (str * str * str * str) := " +
            gen.coq_list("(%s, %s, %s, %s)" % (s(a), s(b), s(c), s(d)) for a, b, c, d in sources) + ".",
+           "(* (module, function, how): writes to / non-copy uses of os.environ and other process-wide os state *)",
+           "Definition process_state_writes : list (str * str * str) := " +
+           gen.coq_list("(%s, %s, %s)" % (s(a), s(b), s(c)) for a, b, c in environ) + ".",
            "(* human-readable: " + "; ".join("%s.%s<-%s" % (a, c, b) for a, b, c in global_stmts) + " | " +
            "; ".join("%s.%s mutated in %s" % (a, c, b) for a, b, c in mutated) + " *)"]
     return "\n".join(out) + "\n"
 
 
+def unit_cachesite(repo, gen):
+    """Where the directory cache lives and when it is believed, as the source says it (handlers/dir.py): the
+    configuration options DirHandler reads, the expression naming the cache file, the freshness test of
+    loadcache(), and the iswritable() guards of loadcache() and savecache()."""
+    rel = "pygopherd/handlers/dir.py"
+    tree = gen.parse(repo, rel)
+    cls = gen.find_class(tree, "DirHandler")
+    load, save = gen.find_func(cls, "loadcache"), gen.find_func(cls, "savecache")
+    section = "handlers.dir.DirHandler"
+    options = set()
+    for n in ast.walk(cls):
+        if isinstance(n, ast.Call) and isinstance(n.func, ast.Attribute) and n.func.attr in (
+                "get", "getint", "getboolean", "getfloat", "has_option") and n.args \
+                and isinstance(n.args[0], ast.Constant) and n.args[0].value == section:
+            if len(n.args) < 2 or not isinstance(n.args[1], ast.Constant):
+                raise gen.Unsupported("DirHandler reads a computed option name")
+            options.add(n.args[1].value)
+    names = []
+    for n in ast.walk(cls):
+        if isinstance(n, ast.Assign):
+            for tg in n.targets:
+                if isinstance(tg, ast.Attribute) and tg.attr == "cachename":
+                    names.append(ast.unparse(n.value))
+    tests = [ast.unparse(n.test) for n in ast.walk(load) if isinstance(n, ast.If) and "cachetime" in ast.unparse(n.test)
+             and "hasattr" not in ast.unparse(n.test)]
+
+    def guarded(fn):
+        for n in gen.body_without_doc(fn):
+            if isinstance(n, ast.If) and ast.unparse(n.test) == "not self.vfs.iswritable(self.cachename)" \
+                    and len(n.body) == 1 and isinstance(n.body[0], ast.Return):
+                return True
+        return False
+
+    # every function of the class that touches the cache file name
+    users = sorted({f.name for f in cls.body if isinstance(f, ast.FunctionDef)
+                    and any(isinstance(m, ast.Attribute) and m.attr == "cachename" for m in ast.walk(f))})
+    s = gen.coq_str
+    out = ["(* GENERATED by translate/gen_sites.py from pygopherd/handlers/dir.py — do not edit *)",
+           "From PG Require Import Lib.Str.", "Local Open Scope N_scope.",
+           "Definition dir_options : list str := " + gen.coq_list(s(o) for o in sorted(options)) + ".",
+           "Definition cachename_exprs : list str := " + gen.coq_list(s(x) for x in names) + ".",
+           "Definition freshness_tests : list str := " + gen.coq_list(s(x) for x in tests) + ".",
+           "Definition loadcache_guarded : bool := %s." % ("true" if guarded(load) else "false"),
+           "Definition savecache_guarded : bool := %s." % ("true" if guarded(save) else "false"),
+           "Definition cachename_users : list str := " + gen.coq_list(s(x) for x in users) + ".",
+           "(* human-readable: options %s | cachename %s | fresh %s | users %s *)" % (sorted(options), names, tests, users)]
+    return "\n".join(out) + "\n"
+
+
+def unit_serversite(repo, gen):
+    """pygopherd/server.py: which socketserver hooks the server classes define, and which attributes of the server /
+    handler objects are assigned where -- the per-process state that connections could share."""
+    rel = "pygopherd/server.py"
+    tree = gen.parse(repo, rel)
+    methods, writes, class_attrs = [], [], []
+    for c in tree.body:
+        if not isinstance(c, ast.ClassDef):
+            continue
+        for m in c.body:
+            if isinstance(m, (ast.Assign, ast.AnnAssign)) and getattr(m, "value", None) is not None:
+                for tg in (m.targets if isinstance(m, ast.Assign) else [m.target]):
+                    if isinstance(tg, ast.Name):
+                        class_attrs.append((c.name, tg.id))
+            if not isinstance(m, ast.FunctionDef):
+                continue
+            methods.append((c.name, m.name))
+            for n in ast.walk(m):
+                tgs = []
+                if isinstance(n, ast.Assign):
+                    tgs = n.targets
+                elif isinstance(n, (ast.AugAssign, ast.AnnAssign)):
+                    tgs = [n.target]
+                for tg in tgs:
+                    for x in ast.walk(tg):
+                        if isinstance(x, (ast.Attribute, ast.Subscript)) and isinstance(getattr(x, "ctx", None), ast.Store):
+                            base_ = x.value
+                            txt = ast.unparse(x)
+                            if txt.startswith(("self.", "server.")):
+                                writes.append((c.name, m.name, txt))
+                if isinstance(n, ast.Call) and isinstance(n.func, ast.Attribute) and n.func.attr in (
+                        "add", "append", "update", "pop", "remove", "discard", "clear", "setdefault", "extend", "insert") \
+                        and ast.unparse(n.func.value).startswith(("self.", "server.")):
+                    writes.append((c.name, m.name, ast.unparse(n.func)))
+    s = gen.coq_str
+    methods.sort()
+    writes = sorted(set(writes))
+    class_attrs.sort()
+    out = ["(* GENERATED by translate/gen_sites.py from pygopherd/server.py — do not edit *)",
+           "From PG Require Import Lib.Str.", "Local Open Scope N_scope.",
+           "Definition server_methods : list (str * str) := " + gen.coq_list("(%s, %s)" % (s(a), s(b)) for a, b in methods) + ".",
+           "Definition server_class_attrs : list (str * str) := " + gen.coq_list("(%s, %s)" % (s(a), s(b)) for a, b in class_attrs) + ".",
+           "Definition server_attr_writes : list (str * str * str) := " +
+           gen.coq_list("(%s, %s, %s)" % (s(a), s(b), s(c)) for a, b, c in writes) + ".",
+           "(* human-readable: methods %s | class attrs %s | writes %s *)" % (methods, class_attrs, writes)]
+    return "\n".join(out) + "\n"
+
+
 def register_units(UNITS, gen):
+    UNITS["ServerSite"] = lambda repo: unit_serversite(repo, gen)
+    UNITS["CacheSite"] = lambda repo: unit_cachesite(repo, gen)
     UNITS["Globals"] = lambda repo: unit_globals(repo, gen)
